@@ -163,14 +163,15 @@ for c in req.get("decimate", []):
     try:
         from pyresample.boundary import AreaBoundary
         lens = c["lens"]
-        # side i: lons = positions 0..L-1, lats = 10*i + position/100 (distinct vertices; sides chained like a ring is not needed here)
-        sides = [(np.arange(L, dtype=np.float64), 10.0 * i + np.arange(L, dtype=np.float64) / 100.0) for i, L in enumerate(lens)]
+        # side i: lons = positions 0..L-1 (halved), lats = 10*i + position/100 (distinct vertices; sides chained like a ring is not needed here)
+        # (longitudes stay within +-180 degrees: position/2)
+        sides = [(np.arange(L, dtype=np.float64) / 2.0, 10.0 * i + np.arange(L, dtype=np.float64) / 100.0) for i, L in enumerate(lens)]
         b = AreaBoundary(*sides)
         r = {}
         if c.get("touch_poly_first"):
             r["poly_n_before"] = int(len(b.contour_poly.lon))
         b.decimate(c["ratio"])
-        r["positions"] = [[int(v) for v in s_] for s_ in b.sides_lons]
+        r["positions"] = [[int(round(v * 2.0)) for v in s_] for s_ in b.sides_lons]
         r["lat_positions"] = [[int(round((v - 10.0 * i) * 100.0)) for v in s_] for i, s_ in enumerate(b.sides_lats)]
         cl, ca = b.contour()
         r["contour_n"] = int(len(cl))
